@@ -359,6 +359,8 @@ class AsType:
     @staticmethod
     def gen(pool, a=None, to=None):
         a = a or pool.pick(lambda n: n.kind != 'c')
+        if a.kind == 'c':
+            raise Reject
         if to is None:
             to = str(pool.rng.choice([k for k in KINDS if KINDS.index(k) > KINDS.index(a.kind)]))
         if KINDS.index(to) <= KINDS.index(a.kind):
